@@ -22,7 +22,20 @@ def _csl(g, j, a):
     return h
 
 
+def _fcut(order):
+    def f(v, lo, a, b, c):
+        lo, a, b, c = int(lo), int(a), int(b), int(c)
+        if lo < 0 or lo + a * b * c > 8:
+            raise _Undef('block outside the sampled vector')
+        return np.reshape(np.array([float(v[k]) for k in range(lo, lo + a * b * c)]), (a, b, c), order=order)
+    return f
+
+
 INTERP_EXT = {
+    'cntle': lambda a, n, z: sum(1 for k in range(int(n)) if a[k] <= z),
+    'ascp': lambda a, n: all(a[k] <= a[k + 1] for k in range(int(n) - 1)),
+    'eyer': lambda a, b: np.eye(int(a), int(b)),
+    'fcut': _fcut('F'), 'fcutC': _fcut('C'),
     'pprod': _pprod,
     'm12': lambda x, y: np.array([[float(x), float(y)]]),
     'm21': lambda x, y: np.array([[float(x)], [float(y)]]),
